@@ -603,6 +603,20 @@ def fmt(ctx: Ctx) -> List[Ob]:
         ok = bool(rets) and all(any(v_ is mc[0] for v_ in reaching_values(ctx, td, c.stmt, c.value)) for c in rets)
     O(["C14"], td, "to_dict uses the dict returned by the mapper (a mapper may return a new dict)", ok,
       "a serialize mapper that returns a new dict instead of patching the passed one would be ignored")
+    # the children are attached to the mapper's result, i.e. after it ran: a mapper that returns a new dict keeps them
+    ok = None
+    if len(mc) == 1:
+        stores = [x for x in ast.walk(td.node) if isinstance(x, ast.Subscript) and isinstance(x.ctx, ast.Store) and norm(x.slice) == "'children'" and isinstance(x.value, ast.Name)]
+        if len(stores) == 1:
+            st_ = stores[0]
+            while st_ is not None and not isinstance(st_, ast.stmt):
+                st_ = m.parent_of(st_)
+            if any(v_ is mc[0] for v_ in reaching_values(ctx, td, st_, stores[0].value)):
+                ok = True
+            elif not_after(ctx, td, st_, mc[0]) and any(norm(a_) == norm(stores[0].value) for a_ in mc[0].args):
+                ok = False
+    O(["C14"], td, "to_dict attaches the children to the dict the mapper returned", ok,
+      "children stored on the dict that is handed to the mapper are lost when the mapper returns a new dict")
     ids = find("$$r['data_id'] = self._data_id", td.node)
     ok = None
     if len(ids) == 1:
